@@ -66,7 +66,7 @@ def exists_before_create(ct, rep, rule="exists-before-create"):
     for name in ("new", "copy"):
         f = ct.prog.need_method(ct.tdf, name)
         fq = f"Tdf.{name}"
-        paths = path_returns(f.node)
+        paths = path_returns(f.node, assign_calls=True)
         found = 0
         refusals = {}  # path text -> [exception names raised when it exists]
         for pe in paths:
@@ -78,7 +78,7 @@ def exists_before_create(ct, rep, rule="exists-before-create"):
                         refusals.setdefault(ptxt, []).append((norm(e) if e is not None else "", pe.node))
         seen = set()
         for pe in paths:
-            for c, path, how, mode in creating_calls(pe.effects):
+            for c, path, how, mode in creating_calls(pe.effects + ([pe.value] if pe.value is not None else [])):
                 found += 1
                 p = norm(path)
                 key = (p, how, getattr(c, "lineno", 0))
@@ -198,16 +198,161 @@ def _tdf_arg(call):
     return None
 
 
+def _open_of(call):
+    """(path expression, mode string) of `<p>.open(mode)` / `open(p, mode)`, else None"""
+    if not isinstance(call, ast.Call):
+        return None
+    kw = {k.arg: k.value for k in call.keywords if k.arg}
+    if isinstance(call.func, ast.Attribute) and call.func.attr == "open":
+        mode = call.args[0] if call.args else kw.get("mode")
+        path = call.func.value
+    elif norm(call.func) == "open" and (call.args or "file" in kw):
+        mode = call.args[1] if len(call.args) > 1 else kw.get("mode")
+        path = call.args[0] if call.args else kw["file"]
+    else:
+        return None
+    if mode is None:
+        return path, "r"
+    if isinstance(mode, ast.Constant) and isinstance(mode.value, str):
+        return path, mode.value
+    return None
+
+
+def _hand_copy(ct, f, fq, rep, rule, dsts):
+    """A copy written by hand: both files opened in one `with` (source `self.file_path` for binary reading, target the new path for
+    binary writing) and the bytes moved by `shutil.copyfileobj`, by one whole `read()`, or by a chunk loop whose only exits are
+    'the chunk is empty' or - after the chunk was written - 'the chunk is shorter than what was asked for'.  Returns (number of
+    copy constructs decided, ids of the calls that belong to it)."""
+    exempt = set()
+    n = 0
+    for w in [x for x in walk_no_nested(f.node) if isinstance(x, ast.With)]:
+        src = dst = None
+        for it in w.items:
+            o = _open_of(it.context_expr)
+            if o is None or not isinstance(it.optional_vars, ast.Name):
+                continue
+            path, mode = o
+            if norm(path) == "self.file_path" and not (set(mode) & WRITE_MODE_CHARS):
+                src = (it.optional_vars.id, mode, it.context_expr)
+            elif set(mode) & set("wx") and "+" not in mode and "a" not in mode:
+                dst = (it.optional_vars.id, mode, it.context_expr, path)
+        if not src or not dst:
+            continue
+        sv, dv = src[0], dst[0]
+        if "b" not in src[1] or "b" not in dst[1]:
+            rep.fail(rule, ct.mod.path.name, fq, w, f"the copy moves the content through a text-mode handle (`{src[1]}` -> `{dst[1]}`): newline / encoding translation makes it differ from the source")
+            return 1, exempt
+        defs = ct.prog  # noqa: F841  (kept for symmetry with the other rules)
+        exempt.update({id(src[2]), id(dst[2])})
+        # the target path is the one built from the caller's argument (locals resolved by the path summaries)
+        from ..facts import path_returns
+        tpaths = set()
+        for pe in path_returns(f.node, assign_calls=True):
+            for e in pe.effects:
+                o = _open_of(e.value) if isinstance(e, ast.Expr) else None
+                if o and set(o[1]) & set("wx"):
+                    tpaths.add(norm(o[0]))
+                    if any(isinstance(x, ast.Name) and x.id in f.params for x in ast.walk(o[0])) and "self" not in {x.id for x in ast.walk(o[0]) if isinstance(x, ast.Name)}:
+                        dsts.add(norm(o[0]))
+        dsts.add(norm(dst[3]))
+        body_calls = [c for st in w.body for c in ast.walk(st) if isinstance(c, ast.Call)]
+        done = False
+        for c in body_calls:
+            if norm(c.func) == "shutil.copyfileobj" and len(c.args) >= 2:
+                exempt.add(id(c))
+                if norm(c.args[0]) == sv and norm(c.args[1]) == dv:
+                    rep.ok(rule, f"{fq}: shutil.copyfileobj({sv}, {dv}) moves every byte of self.file_path into the new file", nontrivial=True)
+                else:
+                    rep.fail(rule, ct.mod.path.name, fq, c, f"copy direction is {norm(c.args[0])} -> {norm(c.args[1])}; expected the handle of self.file_path -> the handle of the new path")
+                done = True
+            elif isinstance(c.func, ast.Attribute) and c.func.attr == "write" and norm(c.func.value) == dv and len(c.args) == 1 \
+                    and isinstance(c.args[0], ast.Call) and isinstance(c.args[0].func, ast.Attribute) and c.args[0].func.attr == "read" \
+                    and norm(c.args[0].func.value) == sv and not c.args[0].args and not c.args[0].keywords:
+                exempt.add(id(c))
+                rep.ok(rule, f"{fq}: {dv}.write({sv}.read()) moves the whole content", nontrivial=True)
+                done = True
+        if done:
+            n += 1
+            continue
+        loops = [x for st in w.body for x in ast.walk(st) if isinstance(x, ast.While)]
+        if len(loops) != 1:
+            continue
+        lp = loops[0]
+        chunk = size = None
+        read_call = None
+        test = lp.test
+        if isinstance(test, ast.NamedExpr) and isinstance(test.value, ast.Call) and isinstance(test.value.func, ast.Attribute) \
+                and test.value.func.attr == "read" and norm(test.value.func.value) == sv:
+            chunk, read_call = test.target.id, test.value
+        elif not (isinstance(test, ast.Constant) and test.value in (True, 1)):
+            continue
+        order = []   # ('read'|'write'|'exit', node, detail) in statement order of the loop body (top level only)
+        und = False
+        for st in lp.body:
+            if isinstance(st, ast.Assign) and len(st.targets) == 1 and isinstance(st.targets[0], ast.Name) and isinstance(st.value, ast.Call) \
+                    and isinstance(st.value.func, ast.Attribute) and st.value.func.attr == "read" and norm(st.value.func.value) == sv and chunk is None:
+                chunk, read_call = st.targets[0].id, st.value
+                order.append(("read", st, None))
+            elif isinstance(st, ast.Expr) and isinstance(st.value, ast.Call) and isinstance(st.value.func, ast.Attribute) and st.value.func.attr == "write" \
+                    and norm(st.value.func.value) == dv and len(st.value.args) == 1 and isinstance(st.value.args[0], ast.Name):
+                order.append(("write", st, st.value.args[0].id))
+                exempt.add(id(st.value))
+            elif isinstance(st, ast.If) and not st.orelse and len(st.body) == 1 and isinstance(st.body[0], ast.Break):
+                order.append(("exit", st, st.test))
+            else:
+                und = True
+        if und or chunk is None or read_call is None:
+            continue
+        if len(read_call.args) > 1 or read_call.keywords:
+            continue
+        size = norm(read_call.args[0]) if read_call.args else None
+        writes = [o for o in order if o[0] == "write"]
+        if len(writes) != 1 or writes[0][2] != chunk:
+            rep.fail(rule, ct.mod.path.name, fq, lp, f"the copy loop does not write each chunk it read exactly once (`{chunk}` read from {sv}; writes: {[norm(head(o[1])) for o in writes]})")
+            n += 1
+            continue
+        n += 1
+        bad = False
+        exits = [o for o in order if o[0] == "exit"]
+        if not exits and not isinstance(test, ast.NamedExpr):
+            continue
+        for o in exits:
+            t = o[2]
+            after_write = order.index(o) > order.index(writes[0])
+            tt = norm(t)
+            empty = tt in (f"not {chunk}", f"{chunk} == b''", f"len({chunk}) == 0", f"len({chunk}) < 1", f"not len({chunk})")
+            if empty:
+                continue
+            if size is not None and tt == f"len({chunk}) < {size}":
+                if not after_write:
+                    rep.fail(rule, ct.mod.path.name, fq, o[1], f"the loop leaves on a short chunk before writing it: the last `len < {size}` bytes of the source never reach the copy")
+                    bad = True
+                continue
+            if size is not None and tt in (f"len({chunk}) <= {size}", f"{size} >= len({chunk})"):
+                rep.fail(rule, ct.mod.path.name, fq, o[1], f"`{tt}` holds for every chunk ({sv}.read({size}) never returns more than {size} bytes): the loop ends after the first chunk and a "
+                         f"source longer than {size} bytes is copied only in part - not a byte-identical copy", construct=f"{fq} copy loop exits after the first chunk")
+                bad = True
+                continue
+            raise AnalysisError(f"{fq}: exit test `{tt}` of the copy loop is not one of the modelled forms")
+        if not bad:
+            rep.ok(rule, f"{fq}: chunk loop {sv} -> {dv} ends only at the end of the source and writes every chunk", nontrivial=True)
+    return n, exempt
+
+
 def copy_direction(ct, rep, rule="copy-direction"):
     from ..facts import path_returns, return_leaves
     f = ct.prog.need_method(ct.tdf, "copy")
     fq = "Tdf.copy"
     n = 0
     dsts = set()
-    for pe in path_returns(f.node):
-        for e in pe.effects:
+    counted = set()
+    for pe in path_returns(f.node, assign_calls=True):
+        for e in pe.effects + ([pe.value] if pe.value is not None else []):
             for c in walk_no_nested(e):
                 if isinstance(c, ast.Call) and norm(c.func) in ("shutil.copyfile", "shutil.copy", "shutil.copy2"):
+                    if (getattr(c, "lineno", 0), getattr(c, "col_offset", 0), norm(c)) in counted:
+                        continue
+                    counted.add((getattr(c, "lineno", 0), getattr(c, "col_offset", 0), norm(c)))
                     n += 1
                     kw = {k.arg: k.value for k in c.keywords if k.arg}
                     src = c.args[0] if c.args else kw.get("src")
@@ -221,6 +366,9 @@ def copy_direction(ct, rep, rule="copy-direction"):
                         rep.ok(rule, f"{fq}: copies self.file_path -> {norm(dst)} (source first)", nontrivial=True)
                     else:
                         rep.fail(rule, ct.mod.path.name, fq, c, f"copy direction is {norm(src) if src is not None else None} -> {norm(dst) if dst is not None else None}; expected self.file_path -> the new path")
+    exempt = set()
+    if not n:
+        n, exempt = _hand_copy(ct, f, fq, rep, rule, dsts)
     if not n:
         raise AnalysisError(f"{fq}: no shutil copy call (anchor vanished)")
     # byte-identical: after the copy call nothing writes into either file (no handle opened for writing, no codec write)
@@ -232,6 +380,8 @@ def copy_direction(ct, rep, rule="copy-direction"):
             mode = c.args[0] if c.args else next((k.value for k in c.keywords if k.arg == "mode"), None)
         elif norm(c.func) == "open":
             mode = c.args[1] if len(c.args) > 1 else next((k.value for k in c.keywords if k.arg == "mode"), None)
+        if id(c) in exempt:
+            continue
         if mode is not None and not (isinstance(mode, ast.Constant) and isinstance(mode.value, str) and not (set(mode.value) & set("wax+"))):
             rep.fail(rule, ct.mod.path.name, fq, c, f"`{norm(c)[:60]}` opens a file for writing inside copy(): the copy (or the source) is changed after it was copied, so the two are not byte-identical",
                      construct=f"{fq} opens {norm(mode)}")
@@ -241,6 +391,9 @@ def copy_direction(ct, rep, rule="copy-direction"):
     rets = [s for s in walk_no_nested(f.node) if isinstance(s, ast.Return)]
 
     def names_new_path(a):
+        # shutil.copy* return their destination (the existence test of exists-before-create rules out a directory target)
+        if isinstance(a, ast.Call) and norm(a.func) in ("shutil.copyfile", "shutil.copy", "shutil.copy2") and len(a.args) >= 2:
+            a = a.args[1]
         return a is not None and (norm(a) in dsts or norm(a) in f.params or (isinstance(a, ast.Call) and norm(a.func) == "Path" and a.args and norm(a.args[0]) in f.params))
 
     if leaves and all(names_new_path(_tdf_arg(v)) for _, v, _ in leaves):
